@@ -15,6 +15,14 @@ import (
 )
 
 func main() {
+	// An embedding application normally has background goroutines (timers, cgo threads); the Go runtime's
+	// "all goroutines are asleep" detector then never fires.  Without this goroutine a statically built init
+	// that blocks for ever would be killed by that detector and a hang would pass for an exit (seeded C16-e).
+	go func() {
+		for {
+			time.Sleep(time.Hour)
+		}
+	}()
 	// when re-executed as the container init this never returns
 	if err := container.Init(); err != nil {
 		fmt.Fprintln(os.Stderr, "container init:", err)
